@@ -99,7 +99,7 @@ Definition pentry := (bool * str)%type.       (* Param { internal, value } *)
 Fixpoint find_param (name : str) (vo : list pentry) (i : nat) : option nat :=
   match vo with
   | [] => None
-  | p :: t => if str_eqb name (snd p) then Some i else find_param name t (S i)
+  | p :: t => if negb (fst p) && str_eqb name (snd p) then Some i else find_param name t (S i)
   end.
 (* returns the new list and the 1-based index written as ?i *)
 Definition add_param (vo : list pentry) (value : str) (internal : bool) : list pentry * nat :=
